@@ -228,7 +228,7 @@ fn run_tree<X: Tree>(ctx: &mut Ctx, prop: &str, gen: &Gen, vm: &str) {
             let back = ctx.total("deserialize(serialize(..))", &cl, 0, 0, 0, || bincode::deserialize::<X>(&bincode::serialize(&t).unwrap()).unwrap());
             for (which, tt) in [Some(&t), back.as_ref()].into_iter().enumerate() {
                 let Some(tt) = tt else { continue };
-                let cls = if which == 0 { cl.clone() } else { format!("{cl} deserialized").trim().to_string() };
+                let cls = if which == 0 { cl.clone() } else { sub_class(&cl, "deserialized") };
                 // the deserialized copy: every symbol, a thinner set of positions on long inputs
                 let step = if which == 1 && n > 3000 { 7 } else { 1 };
                 for &c in &syms {
@@ -254,7 +254,7 @@ fn run_tree<X: Tree>(ctx: &mut Ctx, prop: &str, gen: &Gen, vm: &str) {
             c10_tree(ctx, &t, &r, &o);
             // the same on copies: a deserialized one, and clone_from into trees that held a smaller / a larger alphabet
             let mut o2 = o.clone();
-            o2.class = format!("{cl} copy").trim().to_string();
+            o2.class = sub_class(&cl, "copy");
             if let Some(d) = ctx.total("deserialize(serialize(..))", &o2.class, 0, 0, 0, || derived(&t, 2, X::default)) {
                 c10_tree(ctx, &d, &r, &o2);
             }
@@ -286,8 +286,8 @@ fn run_tree<X: Tree>(ctx: &mut Ctx, prop: &str, gen: &Gen, vm: &str) {
                 }
             }
             // the original has answered queries by now: its round trip must still compare equal (and the earlier copy, queried too, equals it)
-            let _ = roundtrip(ctx, &t, &format!("{cl} after-queries").trim().to_string());
-            ctx.obs("deserialized (queried) == original (queried)", &format!("{cl} after-queries").trim().to_string(), 0, 0, 0, Exp::Is(true), || back == t);
+            let _ = roundtrip(ctx, &t, &sub_class(&cl, "after-queries"));
+            ctx.obs("deserialized (queried) == original (queried)", &sub_class(&cl, "after-queries"), 0, 0, 0, Exp::Is(true), || back == t);
             ctx.count("round_trips");
         }
         "C19" => {
@@ -408,7 +408,7 @@ fn c10_pair<R: PartialEq + std::fmt::Debug + std::hash::Hash>(
             if let Ok(u) = trap(unchecked) {
                 ctx.violation(
                     name,
-                    &format!("{cl} checked-none").trim().to_string(),
+                    &sub_class(cl, "checked-none"),
                     format!("{name}({})", fmt_args(name, a0, a1, a2)),
                     "the value of the checked method - which answers None although the precondition holds".into(),
                     format!("{u:?}"),
@@ -421,7 +421,7 @@ fn c10_pair<R: PartialEq + std::fmt::Debug + std::hash::Hash>(
             if let Ok(u) = trap(unchecked) {
                 ctx.violation(
                     name,
-                    &format!("{cl} checked-panic").trim().to_string(),
+                    &sub_class(cl, "checked-panic"),
                     format!("{name}({})", fmt_args(name, a0, a1, a2)),
                     "the value of the checked method - which panics although the precondition holds".into(),
                     format!("{u:?} (checked: PANIC: {msg})"),
